@@ -10,6 +10,10 @@
 #include <foonathan/memory/detail/lowlevel_allocator.hpp>
 
 #include <new>
+#include <system_error>
+
+#include <foonathan/memory/fallback_allocator.hpp>
+#include <foonathan/memory/tracking.hpp>
 
 using namespace sim;
 namespace fm = foonathan::memory;
@@ -185,6 +189,134 @@ namespace ss
             }
         };
 
+        // a tracker with state: wrapped around a stateless allocator the pair is stateful, its callbacks need the lock
+        struct TsTracker
+        {
+            ProbeState* st = nullptr;
+            struct In
+            {
+                ProbeState& s;
+                In(ProbeState& st_, const char* member) : s(st_)
+                {
+                    ++s.calls;
+                    if (!SimMutex::held_by_current())
+                        Sched::get().fail(std::string("unlocked_access: tracker callback ") + member
+                                          + " of a tracked stateless allocator ran without the mutex held");
+                    if (s.occupancy++ != 0)
+                        Sched::get().fail(std::string("overlap: tracker callback ") + member
+                                          + " entered while another task was inside the tracker");
+                    sim_yield("tracker.enter");
+                }
+                ~In()
+                {
+                    sim_yield("tracker.exit");
+                    --s.occupancy;
+                }
+            };
+            void on_node_allocation(void*, std::size_t, std::size_t) noexcept
+            {
+                In in(*st, "on_node_allocation");
+            }
+            void on_array_allocation(void*, std::size_t, std::size_t, std::size_t) noexcept
+            {
+                In in(*st, "on_array_allocation");
+            }
+            void on_node_deallocation(void*, std::size_t, std::size_t) noexcept
+            {
+                In in(*st, "on_node_deallocation");
+            }
+            void on_array_deallocation(void*, std::size_t, std::size_t, std::size_t) noexcept
+            {
+                In in(*st, "on_array_deallocation");
+            }
+        };
+
+        // an empty class that is a real mutex (it forwards to a process-wide one)
+        struct EmptyMutex
+        {
+            static SimMutex& global()
+            {
+                static SimMutex m;
+                return m;
+            }
+            void lock()
+            {
+                global().lock();
+            }
+            void unlock() noexcept
+            {
+                global().unlock();
+            }
+        };
+
+        // a mutex whose lock() fails (throws) at a drawn call
+        struct ThrowingMutex
+        {
+            static long& countdown()
+            {
+                static long c = 0;
+                return c;
+            }
+            static unsigned& thrown()
+            {
+                static unsigned t = 0;
+                return t;
+            }
+            // (only calls the harness marks may fail: deallocation functions are noexcept, a throwing lock() there
+            //  ends the program by definition)
+            static bool& may_fail()
+            {
+                thread_local bool f = false;
+                return f;
+            }
+            SimMutex m;
+            void     lock()
+            {
+                if (may_fail() && countdown() > 0 && --countdown() == 0)
+                {
+                    ++thrown();
+                    throw std::system_error(std::make_error_code(std::errc::resource_unavailable_try_again));
+                }
+                m.lock();
+            }
+            void unlock() noexcept
+            {
+                m.unlock();
+            }
+        };
+
+        // stateless and composable: says no to every other request, so that the (stateful) fallback is used
+        struct StatelessComposableProbe
+        {
+            using is_stateful = std::false_type;
+            static unsigned long& n()
+            {
+                static unsigned long c = 0;
+                return c;
+            }
+            void* allocate_node(std::size_t size, std::size_t)
+            {
+                return ::operator new(size + 16) /* never used: the composable path is */;
+            }
+            void deallocate_node(void* p, std::size_t, std::size_t) noexcept
+            {
+                ::operator delete(p);
+            }
+            void* try_allocate_node(std::size_t, std::size_t) noexcept
+            {
+                ++n();
+                return nullptr; // always full
+            }
+            bool try_deallocate_node(void*, std::size_t, std::size_t) noexcept
+            {
+                return false; // owns nothing
+            }
+            std::size_t max_node_size() const
+            {
+                return 1u << 20;
+            }
+        };
+
         struct TaskAlloc
         {
             void*       p;
@@ -324,7 +456,7 @@ namespace ss
         heap.begin_op(0);
         using EmptyStateful = fm::allocator_storage<fm::direct_storage<EmptyStatefulProbe>, SimMutex>;
         std::unique_ptr<EmptyStateful> emptystateful;
-        switch (variant % 8)
+        switch (variant % 12)
         {
         case 5:
             EmptyStatefulProbe::state() = &st;
@@ -388,6 +520,101 @@ namespace ss
                             stateless->deallocate_node(p, 0, 8);
                     });
             break;
+        case 8:
+        case 9:
+        case 10:
+        case 11:
+        {
+            // node-only use of four more wrappings; the probes inside judge (lock held, nobody else inside)
+            using TrackedSL = fm::tracked_allocator<TsTracker, StatelessProbe>;
+            using V8        = fm::allocator_storage<fm::direct_storage<TrackedSL>, SimMutex>;
+            using V9        = fm::allocator_storage<fm::direct_storage<Probe>, EmptyMutex>;
+            using Fb        = fm::fallback_allocator<StatelessComposableProbe, Probe>;
+            using V10       = fm::allocator_storage<fm::direct_storage<Fb>, SimMutex>;
+            using V11       = fm::allocator_storage<fm::direct_storage<Probe>, ThrowingMutex>;
+            static std::unique_ptr<V8>  v8;
+            static std::unique_ptr<V9>  v9;
+            static std::unique_ptr<V10> v10;
+            static std::unique_ptr<V11> v11;
+            v8.reset();
+            v9.reset();
+            v10.reset();
+            v11.reset();
+            ThrowingMutex::countdown() = 0;
+            ThrowingMutex::thrown()    = 0;
+            int v = variant % 12;
+            if (v == 8)
+                v8.reset(new V8(TrackedSL(TsTracker{&st}, StatelessProbe{})));
+            else if (v == 9)
+                v9.reset(new V9(Probe(&st)));
+            else if (v == 10)
+                v10.reset(new V10(Fb(StatelessComposableProbe{}, Probe(&st))));
+            else
+            {
+                v11.reset(new V11(Probe(&st)));
+                ThrowingMutex::countdown() = plan.num("lock_fail", 0);
+            }
+            auto body = [&, v](auto& a, int t)
+            {
+                std::vector<std::pair<void*, std::size_t>> mine;
+                for (auto& o : per[std::size_t(t)])
+                {
+                    try
+                    {
+                        if (o.kind == "n" || o.kind == "a" || o.kind == "lk")
+                        {
+                            auto size                 = 8 + std::size_t(o.arg(1)) % 100;
+                            ThrowingMutex::may_fail() = true;
+                            void* p                   = nullptr;
+                            try
+                            {
+                                p = a.allocate_node(size, 8);
+                            }
+                            catch (...)
+                            {
+                                ThrowingMutex::may_fail() = false;
+                                throw;
+                            }
+                            ThrowingMutex::may_fail() = false;
+                            mine.push_back({p, size});
+                        }
+                        else if (o.kind == "f" && !mine.empty())
+                        {
+                            auto m = mine.back();
+                            mine.pop_back();
+                            a.deallocate_node(m.first, m.second, 8);
+                        }
+                        else if (o.kind == "mx")
+                            (void)a.max_node_size();
+                    }
+                    catch (const std::system_error&)
+                    {
+                        // the mutex refused (variant 11): the operation did not happen
+                        if (v != 11)
+                            Sched::get().fail("mutex_protocol: a system_error escaped although no mutex throws");
+                    }
+                }
+                // (what is left is released outside the scheduler's judgement: deallocate is noexcept and would
+                //  terminate on a throwing lock)
+                ThrowingMutex::countdown() = 0;
+                for (auto& m : mine)
+                    a.deallocate_node(m.first, m.second, 8);
+            };
+            for (int t = 0; t < ntasks; ++t)
+                sched.spawn(
+                    [&, t, v, body]
+                    {
+                        if (v == 8)
+                            body(*v8, t);
+                        else if (v == 9)
+                            body(*v9, t);
+                        else if (v == 10)
+                            body(*v10, t);
+                        else
+                            body(*v11, t);
+                    });
+            break;
+        }
         case 6:
         case 7:
         {
@@ -399,7 +626,7 @@ namespace ss
             shadow.reset();
             g_upstream_hook     = [](const char* site) { sim_yield(site); };
             g_new_handler_calls = 0;
-            const bool use_new  = variant % 8 == 7;
+            const bool use_new  = variant % 12 == 7;
             static fm::allocator_storage<fm::direct_storage<SimLowLevel>, SimMutex>     ts_ll{SimLowLevel{}};
             static fm::allocator_storage<fm::direct_storage<fm::new_allocator>, SimMutex> ts_new{fm::new_allocator{}};
             if (use_new)
@@ -529,14 +756,14 @@ namespace ss
         }
         sched.run();
         g_upstream_hook = nullptr;
-        if (variant % 8 == 7)
+        if (variant % 12 == 7)
         {
             std::set_new_handler(nullptr);
             heap.set_exhausted(false);
             stats().hit("reach.new_handler_calls", g_new_handler_calls);
         }
         std::string leak_problem;
-        if (variant % 8 == 6 && !sched.deadlock && !sched.budget_exhausted)
+        if (variant % 12 == 6 && !sched.deadlock && !sched.budget_exhausted)
         {
             // everything was released: the process-wide net of this allocator type must be zero. Ending the last
             // counter object reports a non-zero net to the leak handler.
@@ -569,7 +796,7 @@ namespace ss
         hash.add(st.calls);
         stats().hit("reach.scheduling_decisions", sched.steps);
         stats().hit("reach.preemptions", sched.preemptions);
-        stats().hit("variant." + std::to_string(variant % 8));
+        stats().hit("variant." + std::to_string(variant % 12));
         res.nontrivial = sched.preemptions >= 2;
         auto bad = [&](const char* cls, const std::string& facts)
         {
@@ -603,12 +830,12 @@ namespace ss
                 cls = "mutex_protocol";
             bad(cls.c_str(), sched.problem);
         }
-        else if (variant % 8 == 3 && SimMutex::locks_taken() != 0)
+        else if (variant % 12 == 3 && SimMutex::locks_taken() != 0)
             bad("stateless_locked", "a stateless allocator was wrapped with a real mutex ("
                                         + std::to_string(SimMutex::locks_taken()) + " lock operations)");
-        else if ((variant % 8 == 6 || variant % 8 == 7) && SimMutex::locks_taken() != 0)
+        else if ((variant % 12 == 6 || variant % 12 == 7) && SimMutex::locks_taken() != 0)
             bad("stateless_locked", "a stateless low-level allocator was wrapped with a real mutex");
-        else if ((variant % 8 < 3 || variant % 8 == 5) && st.occupancy != 0)
+        else if ((variant % 12 < 3 || variant % 12 == 5 || variant % 12 >= 8) && st.occupancy != 0)
             bad("overlap", "occupancy counter not back to zero");
         if (res.fatal)
             return; // parked threads reference the objects above: leak them
